@@ -101,15 +101,18 @@ func (inst *Instance) fallbackVectors(P *Program, solverName string, timeoutMs i
 					}
 				}
 			}()
-			out = append(out, x.diverseModels(rng, perPath)...)
+			x.diverseModels(rng, perPath, &out)
 		}()
 	}
 	return out
 }
 
 // diverseModels: boundary and randomly pinned models of the current path condition.
-func (x *Exec) diverseModels(rng *rand.Rand, k int) []map[string]interface{} {
-	var out []map[string]interface{}
+func (x *Exec) diverseModels(rng *rand.Rand, k int, sink *[]map[string]interface{}) {
+	out := *sink
+	defer func() { *sink = out }()
+	// cheap first: bulk candidates checked by evaluation (no solver calls)
+	out = append(out, x.bulkModels(rng, x.inst.bulkWitnesses())...)
 	type pinf func(in Input, t *Term, i int) *Term
 	randomPin := func(in Input, t *Term, i int) *Term {
 		switch in.Kind {
@@ -195,11 +198,17 @@ func (x *Exec) diverseModels(rng *rand.Rand, k int) []map[string]interface{} {
 		strategies = append(strategies, randomPin)
 	}
 	// sweep of boundary integers for every integer input (sizes, counts, language values)
+	nInts := 0
+	for _, in := range x.inputs {
+		if in.Kind == "int" {
+			nInts++
+		}
+	}
 	{
 		bases := []uint64{0, 1 << 8, 2 << 8, 1 << 16, 1 << 31, 1 << 32, 1 << 62, 1 << 63}
 		deltas := []int64{-16, -1, 0, 1, 9, 10, 11, 12, 13, 14, 15, 16, 17, 18, 20, 21, 24, 25, 28, 32, 33}
 		for _, in := range x.inputs {
-			if in.Kind != "int" || len(x.inputs) > 12 {
+			if in.Kind != "int" || nInts > 4 {
 				continue
 			}
 			for _, b := range bases {
@@ -241,7 +250,6 @@ func (x *Exec) diverseModels(rng *rand.Rand, k int) []map[string]interface{} {
 			}
 		}
 	}
-	out = append(out, x.bulkModels(rng, x.inst.bulkWitnesses())...)
 	for _, strat := range strategies[:k] {
 		var pins []*Term
 		for _, in := range x.inputs {
@@ -279,7 +287,6 @@ func (x *Exec) diverseModels(rng *rand.Rand, k int) []map[string]interface{} {
 			out = append(out, x.nativeValues(m))
 		}
 	}
-	return out
 }
 
 // runFallback generates and natively runs witnesses for every inconclusive instance.
@@ -469,6 +476,16 @@ func (x *Exec) bulkModels(rng *rand.Rand, n int) []map[string]interface{} {
 		}
 		return big.NewInt(0)
 	}
+	// integer inputs with a small constant range (a word index, a language) are enumerated completely
+	smallRanges := 0
+	for _, in := range x.inputs {
+		if in.Kind == "int" && in.HasRange && in.Hi-in.Lo <= 4096 {
+			smallRanges++
+			if int(in.Hi-in.Lo)+1 > n {
+				n = int(in.Hi-in.Lo) + 1
+			}
+		}
+	}
 	for it := 0; it < n; it++ {
 		env := map[string]*big.Int{}
 		m := map[int]*big.Int{}
@@ -496,7 +513,14 @@ func (x *Exec) bulkModels(rng *rand.Rand, n int) []map[string]interface{} {
 						v = big.NewInt(int64(rng.Intn(2048)))
 					}
 				case "int":
-					v = big.NewInt(int64(rng.Intn(2048)))
+					switch {
+					case in.HasRange && in.Hi-in.Lo <= 4096 && smallRanges <= 2:
+						v = big.NewInt(in.Lo + int64(it)%(in.Hi-in.Lo+1))
+					case in.HasRange && in.Hi-in.Lo < 1<<30:
+						v = big.NewInt(in.Lo + rng.Int63n(in.Hi-in.Lo+1))
+					default:
+						v = big.NewInt(int64(rng.Intn(2048)))
+					}
 				case "bool", "env":
 					v = big.NewInt(int64(rng.Intn(2)))
 				default:
